@@ -274,5 +274,55 @@ func AnalyzeRun(p *load.Program, r *Roles, depth int) *RunResult {
 			res.Col.Unproven("C01.R0", "engine:"+pr.Kind, pr.Pos, pr.Msg, nil)
 		}
 	}
+	// a recovered panic continues the run on a path the exploration does not model (user
+	// callbacks are assumed not to panic): with a recover in the lifecycle the verdicts of
+	// this unit would be about a different program, so it is reported as undecided
+	seenFn := map[*ssa.Function]bool{r.FnRun: true}
+	for _, o := range outs {
+		for f := range o.e.Inlined {
+			seenFn[f] = true
+		}
+	}
+	var visit func(f *ssa.Function)
+	reported := map[string]bool{}
+	visit = func(f *ssa.Function) {
+		for _, b := range f.Blocks {
+			for _, ins := range b.Instrs {
+				if call, ok := ins.(ssa.CallInstruction); ok {
+					if bi, ok := call.Common().Value.(*ssa.Builtin); ok && bi.Name() == "recover" {
+						msg := "recover: " + funcLabel(f) + " (" + posStr(p.Position(ins.Pos())) + ") recovers from panics: the paths that continue after a recovered panic are not modelled"
+						if !reported[msg] {
+							reported[msg] = true
+							res.Stats.Problems = append(res.Stats.Problems, msg)
+							res.Col.Unproven("C01.R0", "engine:recover", p.Position(ins.Pos()), msg, nil)
+						}
+					}
+				}
+			}
+		}
+		for _, a := range f.AnonFuncs {
+			visit(a)
+		}
+	}
+	for f := range seenFn {
+		if f != nil {
+			visit(f)
+		}
+	}
+	// deferred calls of named in-package functions are followed too
+	for f := range seenFn {
+		if f == nil {
+			continue
+		}
+		for _, b := range f.Blocks {
+			for _, ins := range b.Instrs {
+				if d, ok := ins.(*ssa.Defer); ok {
+					if g := d.Call.StaticCallee(); g != nil && g.Pkg == f.Pkg && !seenFn[g] {
+						visit(g)
+					}
+				}
+			}
+		}
+	}
 	return res
 }
